@@ -40,6 +40,11 @@ namespace BitSerializer::Detail
 			return true;
 		}
 
+		// A short read at the end of the stream leaves `eofbit` and `failbit` set, they must be reset before seeking back
+		if (pos != mStreamPos && mStream.eof())
+		{
+			mStream.clear();
+		}
 		if (pos == mStreamPos || !mStream.seekg(static_cast<std::streamoff>(pos)).fail())
 		{
 			mStreamPos = pos;
